@@ -48,6 +48,18 @@ def cut_positions(n, marks, hdr_end, rng, quick, bigstream):
     return sorted(p for p in pos if 0 <= p < n)
 
 
+def bulk_tail_cuts(marks, n, rng, k):
+    """Cut positions inside the last staging-buffer length of every value larger than the staging buffer: the part
+    of it that a reader requests from the underlying stream in one go, after the part it already had buffered."""
+    out = []
+    ms = sorted(marks)
+    for a, b in zip(ms, ms[1:]):
+        if b - a > sw.BUF:
+            out += [rng.randint(max(a + 1, b - sw.BUF), b - 1) for _ in range(k)]
+            out += [rng.randint(max(a + 1, b - 2000), b - 1) for _ in range(2)]
+    return [p for p in out if 0 <= p < n]
+
+
 def pos_class(p, marks, hdr_end):
     if p < 5:
         return "cut_in_magic"
@@ -69,11 +81,16 @@ BULK_ELEM = {"float32": 4, "float64": 8, "complexfloat32": 8, "complexfloat64": 
 
 
 def add_bulk_protocol(pkg, rng):
-    """Coverage steering: a protocol whose *last* step is one large vector of fixed-size numbers — the shape for
-    which readers have bulk paths (one read request much larger than the staging buffer), and after which
-    nothing else is read that could notice a short read."""
+    """Coverage steering: a protocol with one value much larger than the staging buffer — a vector or an array of
+    fixed-size numbers, or a string: the shapes for which readers have bulk paths (one read request for the rest of
+    the value, straight into its destination). As the *last* step nothing is read after it that could notice a short
+    read; followed by a small step, what was delivered for it can be compared."""
     elem = rng.choice(sorted(BULK_ELEM))
-    steps = [(sw.PAD_STEP, M.Prim("string"), False), ("frames", M.Prim("int32"), True), (BULK_STEP, M.Vec(M.Prim(elem)), False)]
+    kind = rng.choice(["vector", "array", "array", "string", "string"])
+    t = {"vector": M.Vec(M.Prim(elem)), "array": M.Arr(M.Prim(elem), rng.choice([None, 1, 2])), "string": M.Prim("string")}[kind]
+    steps = [(sw.PAD_STEP, M.Prim("string"), False), ("frames", M.Prim("int32"), True), (BULK_STEP, t, False)]
+    if rng.chance(0.5):
+        steps.append(("tail", M.Prim("int32"), rng.chance(0.5)))
     fn = sorted(pkg.files)[0]
     pkg.files[fn].append(M.Protocol(BULK_PROTO, steps))
 
@@ -82,10 +99,21 @@ def override_bulk(proto, vals, rng, stats):
     if proto.name != BULK_PROTO:
         return
     i = [k for k, s in enumerate(proto.steps) if s[0] == BULK_STEP][0]
-    elem = proto.steps[i][1].inner.name
+    t = proto.steps[i][1]
     nbytes = rng.choice([70 << 10, 140 << 10, rng.randint(132 << 10, 330 << 10), rng.randint(200 << 10, 330 << 10)])
+    if isinstance(t, M.Prim):
+        # (no NUL and no space in it: a zero-filled or missing tail changes the value)
+        vals[i] = "".join("%05d|" % (k % 99991) for k in range(nbytes // 6))
+        stats["bulk_string_streams"] = stats.get("bulk_string_streams", 0) + 1
+        return
+    elem = t.inner.name
     n = nbytes // BULK_ELEM[elem]
     one = (lambda k: float(k % 1000) + 0.25) if not elem.startswith("complex") else (lambda k: (float(k % 1000) + 0.5, -float(k % 7)))
+    if isinstance(t, M.Arr):
+        shape = (n,) if t.dims in (None, 1) else (n // 8, 8)
+        vals[i] = ("a", shape, [one(k + 1) for k in range(shape[0] * (shape[1] if len(shape) > 1 else 1))])
+        stats["bulk_array_streams"] = stats.get("bulk_array_streams", 0) + 1
+        return
     vals[i] = [one(k + 1) for k in range(n)]
     stats["bulk_final_value_streams"] = stats.get("bulk_final_value_streams", 0) + 1
 
@@ -115,7 +143,9 @@ def check_binary(model, proto, rng, quick, stats, viols, seedinfo):
         # a reader that cannot read the intact stream is C01's business; C16 needs a baseline
         stats["baseline_unreadable(skipped)"] = stats.get("baseline_unreadable(skipped)", 0) + 1
         return
-    for p in cut_positions(len(data), marks, hdr_end, rng, quick, big):
+    tail_cuts = bulk_tail_cuts(marks, len(data), rng, 4 if quick else 12)
+    stats["cuts_in_the_last_64k_of_a_bulk_value"] = stats.get("cuts_in_the_last_64k_of_a_bulk_value", 0) + len(tail_cuts)
+    for p in sorted(set(cut_positions(len(data), marks, hdr_end, rng, quick, big)) | set(tail_cuts)):
         mode = rng.choice(["whole", "whole", "small", "mixed", "bytewise"] if len(data) < 5000 else ["whole", "mixed"])
         stream = P.binary_input(data[:p], rng, mode)
         cls = pos_class(p, marks, hdr_end)
@@ -179,7 +209,7 @@ def check_cpp(model, cm, proto, rng, quick, stats, viols, seedinfo):
     nb = cm.copyto[proto.name]
     cuts = cut_positions(len(data), marks, hdr_end, rng, quick, big)
     # exact multiples of the staging buffer size, if the stream is that long, are always included
-    cuts = sorted(set(cuts) | {k for k in (sw.BUF, 2 * sw.BUF) if k < len(data)})
+    cuts = sorted(set(cuts) | {k for k in (sw.BUF, 2 * sw.BUF) if k < len(data)} | set(bulk_tail_cuts(marks, len(data), rng, 4 if quick else 12)))
     runs = [{"proto": proto.name, "op": "relay", "in_fmt": "binary", "out_fmt": "ndjson", "input": 0, "batch": [1] * nb}]
     for p in cuts:
         # mostly one item per read; now and then batch reads, which must not hand out a batch that the end of input cut short
@@ -470,7 +500,7 @@ def main():
                assumptions=["the reference codec follows docs/reference/*.md except int8/uint8 as one raw byte (what every backend does; reported under C01)",
                             "an NDJSON prefix that is itself a complete document of the protocol (cut on a line boundary in a trailing stream) is a by-design finding, listed in known_findings.json"],
                replay_fn=replay_doc, quick_budget=100,
-               fault_keys=("cuts", "ndjson_cuts", "cpp_cuts", "cpp_ndjson_cuts", "cpp_ndjson_cut_on_line_boundary", "cpp_ndjson_cut_inside_line", "cpp_ndjson_cut_in_header", "bulk_final_value_streams", "cpp_cut_at_k_times_65536", "cpp_cut_at_k_times_65536_pm1", "cpp_cut_inside_value", "cpp_cut_on_value_boundary", "cut_in_magic", "cut_in_version", "cut_in_schema", "cut_inside_value", "cut_on_value_boundary",
+               fault_keys=("cuts", "ndjson_cuts", "cpp_cuts", "cpp_ndjson_cuts", "cpp_ndjson_cut_on_line_boundary", "cpp_ndjson_cut_inside_line", "cpp_ndjson_cut_in_header", "bulk_final_value_streams", "bulk_array_streams", "bulk_string_streams", "cuts_in_the_last_64k_of_a_bulk_value", "cpp_cut_at_k_times_65536", "cpp_cut_at_k_times_65536_pm1", "cpp_cut_inside_value", "cpp_cut_on_value_boundary", "cut_in_magic", "cut_in_version", "cut_in_schema", "cut_inside_value", "cut_on_value_boundary",
                            "cut_at_k_times_65536", "cut_at_k_times_65536_pm1", "ndjson_cut_on_line_boundary", "ndjson_cut_inside_line", "ndjson_cut_in_header"))
 
 
